@@ -75,12 +75,114 @@ ERROR_MESSAGES = [
 
 
 # ---------------------------------------------------------------------------------- server
-def _new_handler():
+class Unprintable(Exception):
+    """an exception whose text cannot be produced"""
+
+    def __str__(self):
+        raise RuntimeError("no text for this exception")
+
+    __repr__ = __str__
+
+
+EXC_CLASSES = {
+    "TypeError": TypeError, "ValueError": ValueError, "KeyError": KeyError, "IndexError": IndexError, "AttributeError": AttributeError,
+    "RuntimeError": RuntimeError, "RecursionError": RecursionError, "OSError": OSError, "Exception": Exception,
+    "TimeoutError": TimeoutError, "Unprintable": Unprintable,
+}
+
+
+def make_exc(name):
+    cls = EXC_CLASSES[name]
+    return cls() if cls is Unprintable else cls(f"scripted {name} %s {{}}")
+
+
+class debug_logging:
+    """`with debug_logging(on):` — run as a host that configured logging at DEBUG would (every logging.debug / isEnabledFor branch
+    live, records to a NullHandler); state restored afterwards."""
+
+    def __init__(self, on):
+        self.on = bool(on)
+        self.restore = None
+
+    def __enter__(self):
+        if self.on:
+            from .await_h import _debug_logging
+            self.restore = _debug_logging()
+        return self
+
+    def __exit__(self, *a):
+        if self.restore is not None:
+            self.restore()
+        return False
+
+
+def assign_debug(cases, keyfn, share=3, ctx=None, name=""):
+    """Mark a deterministic third of the cases (by content hash) to run under DEBUG logging, and make sure every scenario kind
+    (`keyfn(case)`) has at least one such member."""
+    from .core import sha
+
+    seen = set()
+    for c in cases:
+        if int(sha(c), 16) % share == 0:
+            c["debug"] = True
+            seen.add(keyfn(c))
+    for c in cases:
+        k = keyfn(c)
+        if k not in seen:
+            c["debug"] = True
+            seen.add(k)
+    if ctx is not None:
+        ctx.notes.append(f"{name}: {sum(1 for c in cases if c.get('debug'))} of {len(cases)} cases run with the root logger at DEBUG "
+                         f"(NullHandler), at least one of each of {len(seen)} scenario kinds")
+    return cases
+
+
+HANDLER_VARIANTS = ["plain", "full-capabilities", "registry", "hostile-info"]
+
+
+def _new_handler(variant=None):
     from chuk_mcp.server.protocol_handler import ProtocolHandler
     from chuk_mcp.protocol.types.info import ServerInfo
     from chuk_mcp.protocol.types.capabilities import ServerCapabilities
 
-    return ProtocolHandler(ServerInfo(name="verif-server", version="1.0"), ServerCapabilities())
+    if variant in (None, "plain"):
+        return ProtocolHandler(ServerInfo(name="verif-server", version="1.0"), ServerCapabilities())
+    if variant == "full-capabilities":
+        caps = ServerCapabilities(tools={"listChanged": True}, resources={"subscribe": True, "listChanged": False},
+                                  prompts={"listChanged": True}, logging={}, experimental={"protocolVersion": {"v": "1999-01-01"}})
+        return ProtocolHandler(ServerInfo(name="verif-server", version="1.0", title="protocolVersion"), caps)
+    if variant == "hostile-info":
+        return ProtocolHandler(ServerInfo(name="%s {} {0}\n\u2028'\"\\", version="%d"), ServerCapabilities())
+    if variant == "registry":  # a non-empty method registry, including a method that raises
+        h = ProtocolHandler(ServerInfo(name="verif-server", version="1.0"), ServerCapabilities(tools={}))
+
+        async def ok(message, session_id):
+            return h.create_response(getattr(message, "id", None), {"tools": []}), None
+
+        async def boom(message, session_id):
+            raise Unprintable()
+
+        h.register_method("tools/list", ok)
+        h.register_method("verif/raise", boom)
+        h.register_method("protocolVersion", ok)
+        return h
+    raise ValueError(variant)
+
+
+def _faulty_session_manager(handler, cls_name, times):
+    """The session store raises `cls_name` from create_session for the first `times` calls (a custom / remote store that is
+    temporarily unavailable), then works."""
+    sm = handler.session_manager
+    real = sm.create_session
+    left = {"n": times}
+
+    def create_session(*a, **k):
+        if left["n"] > 0:
+            left["n"] -= 1
+            raise make_exc(cls_name)
+        return real(*a, **k)
+
+    sm.create_session = create_session
 
 
 CLIENT_INFO = {
@@ -222,8 +324,9 @@ def run_server(cases):
     async def main():
         out = []
         for c in cases:
-            handler = _new_handler()
-            o, _ = await _serve_one(handler, init_request_dict(c["req"]))
+            with debug_logging(c.get("debug")):
+                handler = _new_handler(c.get("hv"))
+                o, _ = await _serve_one(handler, init_request_dict(c["req"]))
             o.pop("sid", None)
             o["sessions"] = handler.session_manager.get_session_count()
             out.append(o)
@@ -255,12 +358,24 @@ def run_server_seq(cases):
         "unknown-method": {"jsonrpc": "2.0", "id": 0, "method": "verif/unknown"},
         "initialized": {"jsonrpc": "2.0", "method": "notifications/initialized"},
         "unknown-notification": {"jsonrpc": "2.0", "method": "notifications/verif-unknown", "params": {}},
+        "raising-method": {"jsonrpc": "2.0", "id": "between-raise", "method": "verif/raise"},
+        "tools-list": {"jsonrpc": "2.0", "id": "between-tools", "method": "tools/list"},
     }
 
     async def one_case(c):
-        handler = _new_handler()
+        with debug_logging(c.get("debug")):
+            return await one_case_(c)
+
+    async def one_case_(c):
+        # "handlers": n -> n handlers alive at once; a step's "h" picks one (default 0); every handler sees the SAME message ids
+        handlers = [_new_handler(c.get("hv")) for _ in range(int(c.get("handlers") or 1))]
+        if c.get("store_raises"):
+            for h_ in handlers:
+                _faulty_session_manager(h_, c["store_raises"]["cls"], c["store_raises"]["times"])
+        handler = handlers[0]
         sm = handler.session_manager
-        sids, steps, held = [], [], []
+        per_handler_sids = [[] for _ in handlers]
+        sids, steps, held = per_handler_sids[0], [], []
         last_msg = None
         read_now = c.get("read", "both") == "both"
         if c.get("concurrent"):
@@ -277,9 +392,13 @@ def run_server_seq(cases):
                     tg.start_soon(run, i)
             for (_m, resp, sid, err) in results:
                 steps.append(dict(err) if err else {"carried": None})
-                held.append((resp, sid, None, err))
+                held.append((resp, sid, None, err, handler))
         else:
             for i, st in enumerate(c["steps"]):
+                hi = int(st.get("h") or 0)
+                handler = handlers[hi]
+                sm = handler.session_manager
+                sids = per_handler_sids[hi]
                 carry = st.get("carry")
                 sid_in = None
                 if carry in ("prev", "deleted", "cleared") and sids:
@@ -294,6 +413,12 @@ def run_server_seq(cases):
                     sid_in = "0" * 32
                 elif carry == "empty":
                     sid_in = ""
+                elif carry == "int":
+                    sid_in = 7
+                elif carry == "true":
+                    sid_in = True
+                elif carry == "other-handler" and any(per_handler_sids[j] for j in range(len(handlers)) if j != hi):
+                    sid_in = next(per_handler_sids[j][-1] for j in range(len(handlers)) if j != hi and per_handler_sids[j])
                 for b in st.get("between") or (["ping"] if sid_in else []):
                     try:
                         await handler.handle_message(parse_message(between_msgs[b]), sid_in)
@@ -319,15 +444,16 @@ def run_server_seq(cases):
                     if sess_obj is not None:
                         o["session"] = _json_safe(sess_obj.protocol_version)
                 o["carried"] = carry if sid_in is not None else None
+                o["h"] = hi
                 o["new_sessions"] = sm.get_session_count() - before
                 o["reused_carried"] = sid is not None and sid == sid_in
                 if sid is not None:
                     sids.append(sid)
                 steps.append(o)
-                held.append((resp, sid, sess_obj, err))
+                held.append((resp, sid, sess_obj, err, handler))
         # ... and only now, after the whole sequence, every response is serialised (again) and every session looked up (again)
-        all_sids = [h[1] for h in held]
-        for i, (o, (resp, sid, sess_obj, err)) in enumerate(zip(steps, held)):
+        all_sids = [(id(h[4]), h[1]) for h in held]
+        for i, (o, (resp, sid, sess_obj, err, handler)) in enumerate(zip(steps, held)):
             if err:
                 continue
             late, _ = _read_answer(resp)
@@ -338,7 +464,7 @@ def run_server_seq(cases):
             if sess_obj is not None:
                 late["session_object"] = _json_safe(sess_obj.protocol_version)  # the record handed out right after the step
             # the session of this step was handed out again by a later step (re-initialisation of one session)
-            late["sid_reissued"] = sid is not None and sid in all_sids[i + 1:]
+            late["sid_reissued"] = sid is not None and (id(handler), sid) in all_sids[i + 1:]
             o["late"] = late
             if "kind" not in o:  # nothing was read right away: the late reading is the only one
                 for k in ("kind", "code", "has_version", "answered", "has_session", "session"):
@@ -470,6 +596,8 @@ def _classify(ex):
         return {"outcome": "timeout"}
     if isinstance(ex, (RetryableError, NonRetryableError)):
         return {"outcome": "rpc", "code": ex.code}
+    if isinstance(ex, (Unprintable,)) or (type(ex).__name__ in EXC_CLASSES and str(getattr(ex, "args", [""])[:1]).find("scripted ") >= 0):
+        return {"outcome": "stream-raised", "exc": type(ex).__name__}
     if isinstance(ex, IndexError):
         return {"outcome": "noversions"}
     if isinstance(ex, (anyio.EndOfStream, anyio.BrokenResourceError, anyio.ClosedResourceError)):
@@ -494,6 +622,38 @@ def _tracked_obs(client):
     o = None if pv is None else {"v": pv, "batching": bool(info.get("batching_enabled"))}
     return o, {"enabled": bool(info.get("batching_enabled")), "processor": bool(client.batch_processor.batching_enabled),
                "can_batch": bool(client.batch_processor.can_process_batch([1]))}
+
+
+class _RaisingSend:
+    """Write-stream proxy (a caller-supplied stream object): the n-th `send` raises the scripted exception instead of sending."""
+
+    def __init__(self, inner, nth, exc_name):
+        self._inner, self._nth, self._exc, self._count = inner, nth, exc_name, 0
+
+    async def send(self, item):
+        self._count += 1
+        if self._count == self._nth:
+            raise make_exc(self._exc)
+        return await self._inner.send(item)
+
+    def __getattr__(self, name):
+        return getattr(self._inner, name)
+
+
+class _RaisingReceive:
+    """Read-stream proxy: the n-th `receive` raises the scripted exception."""
+
+    def __init__(self, inner, nth, exc_name):
+        self._inner, self._nth, self._exc, self._count = inner, nth, exc_name, 0
+
+    async def receive(self):
+        self._count += 1
+        if self._count == self._nth:
+            raise make_exc(self._exc)
+        return await self._inner.receive()
+
+    def __getattr__(self, name):
+        return getattr(self._inner, name)
 
 
 class _Streams:
@@ -523,6 +683,9 @@ async def _client_call(loop, st, c, client):
       close_read            the peer closes the read side right after answering
       wbuf, filler, take    write side: buffer size, a foreign message occupying it, when the peer reads again (None = never,
                             "refuses" = the peer closes that direction after answering)
+      raise_on              {"where": "send-request" | "send-notification" | "receive", "cls": <EXC_CLASSES key>}: the caller's stream
+                            object raises that exception from the named operation
+      sup_tuple             the supported versions are handed over as a tuple
     """
     import anyio
     from chuk_mcp.protocol.messages.initialize.send_messages import (
@@ -598,12 +761,21 @@ async def _client_call(loop, st, c, client):
         loop.at(loop.ticks + at + c["take"], take)
     kwargs = {}
     if sup_obj is not None:
-        kwargs["supported_versions"] = sup_obj
+        kwargs["supported_versions"] = tuple(sup_obj) if c.get("sup_tuple") else sup_obj
     if c.get("pref") is not None:
         kwargs["preferred_version"] = c["pref"]
+    elif c.get("pref_none"):
+        kwargs["preferred_version"] = None
     if c.get("D") is not None:
         kwargs["timeout"] = c["D"] * vloop.TICK
     track = c.get("track")
+    rstream, wstream = st.in_recv, st.out_send
+    ro = c.get("raise_on")
+    if ro:
+        if ro["where"] == "receive":
+            rstream = _RaisingReceive(st.in_recv, 1, ro["cls"])
+        else:
+            wstream = _RaisingSend(st.out_send, 1 if ro["where"] == "send-request" else 2, ro["cls"])
     t0 = loop.ticks
     import contextlib
     bound = (anyio.move_on_after((at + 4 * (c.get("D") or 61440) + 64) * vloop.TICK)
@@ -611,11 +783,11 @@ async def _client_call(loop, st, c, client):
     with bound:
         try:
             if track == "none":
-                res = await send_initialize_with_client_tracking(st.in_recv, st.out_send, client=None, **kwargs)
+                res = await send_initialize_with_client_tracking(rstream, wstream, client=None, **kwargs)
             elif track:
-                res = await send_initialize_with_client_tracking(st.in_recv, st.out_send, client=client, **kwargs)
+                res = await send_initialize_with_client_tracking(rstream, wstream, client=client, **kwargs)
             else:
-                res = await send_initialize(st.in_recv, st.out_send, **kwargs)
+                res = await send_initialize(rstream, wstream, **kwargs)
             obs["outcome"] = "ok"
             obs["v"] = _json_safe(getattr(res, "protocolVersion", None))
             obs["type"] = type(res).__name__
@@ -650,27 +822,48 @@ async def _client_case(loop, c):
 
 
 async def _client_seq_case(loop, c):
-    """case = {"steps": [client case, ..], "share_list": bool}: consecutive calls on the SAME streams with the SAME tracked client
-    (and, with share_list, the same supported-versions list object whenever consecutive steps name the same list)."""
-    st = _Streams(None)
-    client = _tracked_client()
+    """case = {"steps": [client case, ..], "share_list": bool, "conns": n, "concurrent": bool}: consecutive calls on the SAME
+    streams with the SAME tracked client (and, with share_list, the same supported-versions list object whenever consecutive steps
+    name the same list).  With "conns": n there are n connections (streams + tracked client each) alive at once and a step's
+    "conn" picks one; with "concurrent" all steps (one per connection) run at the same time in a task group."""
+    import anyio
+
+    n = int(c.get("conns") or 1)
+    sts = [_Streams(None) for _ in range(n)]
+    clients = [_tracked_client() for _ in range(n)]
     out = []
     shared = {}
     hold = []
     try:
-        for stp in c["steps"]:
-            stp = dict(stp, track=True, _hold=hold)
-            if c.get("share_list") and stp.get("sup") is not None:
-                key = tuple(stp["sup"])
-                stp["_sup_obj"] = shared.setdefault(key, list(stp["sup"]))
-            o = await _client_call(loop, st, stp, client)
-            out.append(o)
-            if o["outcome"] == "transport":
-                break  # the streams are gone
+        if c.get("concurrent"):
+            out = [None] * len(c["steps"])
+
+            async def run(i, stp):
+                out[i] = await _client_call(loop, sts[int(stp.get("conn") or 0)], dict(stp, track=True, _hold=hold, tie=c["steps"][0].get("tie", "events")),
+                                            clients[int(stp.get("conn") or 0)])
+
+            async with anyio.create_task_group() as tg:
+                for i, stp in enumerate(c["steps"]):
+                    tg.start_soon(run, i, stp)
+        else:
+            for stp in c["steps"]:
+                ci = int(stp.get("conn") or 0)
+                stp = dict(stp, track=True, _hold=hold)
+                if c.get("share_list") and stp.get("sup") is not None:
+                    key = tuple(stp["sup"])
+                    stp["_sup_obj"] = shared.setdefault(key, list(stp["sup"]))
+                o = await _client_call(loop, sts[ci], stp, clients[ci])
+                out.append(o)
+                if o["outcome"] == "transport" and n == 1:
+                    break  # the streams are gone
     finally:
-        st.close()
+        for st in sts:
+            st.close()
     for o, res in hold:  # what an earlier call returned must not change because of later calls
         o["late_v"] = _json_safe(getattr(res, "protocolVersion", None))
+    if n > 1:  # every connection's tracked client at the very end
+        final = [_tracked_obs(cl)[0] for cl in clients]
+        return {"steps": out, "final_tracked": final}
     return {"steps": out}
 
 
@@ -680,7 +873,8 @@ def _run_on_vloop(fn, cases):
     async def main():
         loop = __import__("asyncio").get_running_loop()
         for c in cases:
-            out.append(await fn(loop, c))
+            with debug_logging(c.get("debug")):
+                out.append(await fn(loop, c))
 
     vloop.run(main)
     return out
@@ -938,45 +1132,46 @@ def run_versionlib(cases):
     PV = VV.ProtocolVersion
     out = []
     for c in cases:
-        op = c["op"]
-        if op == "negotiate":
-            cl, sl = list(c["c"]), list(c["s"])
-            o = {"r": _call(VV.negotiate_version, cl, sl)}
-            if cl != c["c"] or sl != c["s"]:
-                o["mutated"] = True
-        elif op == "pair":
-            a, b = c["a"], c["b"]
-            o = {"compatible": _call(VV.validate_version_compatibility, a, b), "compare": _call(PV.compare, a, b),
-                 "newer": _call(PV.is_newer, a, b), "older": _call(PV.is_older, a, b)}
-        elif op == "one":
-            v = c["v"]
-            info = _call(VV.get_version_info, v)
-            if isinstance(info, dict):
-                info = dict(info)
-                if info.pop("version", None) != v:
-                    info["version_member_differs"] = True
-            o = {"valid": _call(PV.validate_format, v), "supported": _call(PV.is_supported, v), "parse": _call(PV.parse_version, v),
-                 "info": info,
-                 # the helpers next to send_initialize and the legacy batching wrapper against the functions they name
-                 "alias_supported": _call(SM.is_version_supported, v), "alias_valid": _call(SM.validate_version_format, v)}
-            with warnings.catch_warnings(record=True) as w:
-                warnings.simplefilter("always")
-                o["alias_batching"] = _call(B._supports_batch_processing, v)
-                o["alias_batching_warned"] = any(issubclass(x.category, DeprecationWarning) for x in w)
-            o["batching"] = _call(B.supports_batching, v)
-        elif op == "consts":
-            before = copy.deepcopy(VV.SUPPORTED_VERSIONS)
-            got = PV.get_all_supported()
-            got2 = SM.get_supported_versions()
-            o = {"latest": _call(PV.get_latest_supported), "minimum": _call(PV.get_minimum_supported), "all": list(got),
-                 "alias_all": list(got2), "alias_latest": _call(SM.get_current_version),
-                 "module_current": VV.CURRENT_VERSION, "module_minimum": VV.MINIMUM_VERSION, "module_list": list(VV.SUPPORTED_VERSIONS)}
-            got.append("mutated-by-the-caller")
-            got2.insert(0, "mutated-by-the-caller")
-            o["copy_is_independent"] = VV.SUPPORTED_VERSIONS == before and PV.get_all_supported() == before
-        elif op == "format":
-            o = {"r": _call(VV.format_version_list, list(c["vs"]))}
-        else:
-            raise ValueError(op)
-        out.append(o)
+      with debug_logging(c.get("debug")):
+          op = c["op"]
+          if op == "negotiate":
+              cl, sl = list(c["c"]), list(c["s"])
+              o = {"r": _call(VV.negotiate_version, cl, sl)}
+              if cl != c["c"] or sl != c["s"]:
+                  o["mutated"] = True
+          elif op == "pair":
+              a, b = c["a"], c["b"]
+              o = {"compatible": _call(VV.validate_version_compatibility, a, b), "compare": _call(PV.compare, a, b),
+                   "newer": _call(PV.is_newer, a, b), "older": _call(PV.is_older, a, b)}
+          elif op == "one":
+              v = c["v"]
+              info = _call(VV.get_version_info, v)
+              if isinstance(info, dict):
+                  info = dict(info)
+                  if info.pop("version", None) != v:
+                      info["version_member_differs"] = True
+              o = {"valid": _call(PV.validate_format, v), "supported": _call(PV.is_supported, v), "parse": _call(PV.parse_version, v),
+                   "info": info,
+                   # the helpers next to send_initialize and the legacy batching wrapper against the functions they name
+                   "alias_supported": _call(SM.is_version_supported, v), "alias_valid": _call(SM.validate_version_format, v)}
+              with warnings.catch_warnings(record=True) as w:
+                  warnings.simplefilter("always")
+                  o["alias_batching"] = _call(B._supports_batch_processing, v)
+                  o["alias_batching_warned"] = any(issubclass(x.category, DeprecationWarning) for x in w)
+              o["batching"] = _call(B.supports_batching, v)
+          elif op == "consts":
+              before = copy.deepcopy(VV.SUPPORTED_VERSIONS)
+              got = PV.get_all_supported()
+              got2 = SM.get_supported_versions()
+              o = {"latest": _call(PV.get_latest_supported), "minimum": _call(PV.get_minimum_supported), "all": list(got),
+                   "alias_all": list(got2), "alias_latest": _call(SM.get_current_version),
+                   "module_current": VV.CURRENT_VERSION, "module_minimum": VV.MINIMUM_VERSION, "module_list": list(VV.SUPPORTED_VERSIONS)}
+              got.append("mutated-by-the-caller")
+              got2.insert(0, "mutated-by-the-caller")
+              o["copy_is_independent"] = VV.SUPPORTED_VERSIONS == before and PV.get_all_supported() == before
+          elif op == "format":
+              o = {"r": _call(VV.format_version_list, list(c["vs"]))}
+          else:
+              raise ValueError(op)
+          out.append(o)
     return out
